@@ -295,7 +295,7 @@ Definition infer_nested (co ci : cfg) (s : str) : res (list (answer (inner_answe
    executable solver: the INTEGER instance of Model.Munkres (computeZ) on the cost matrix scaled by a common
    denominator D of its entries:  cost_ij = D * (1 - grade_ij)  as an integer.  In exact arithmetic the
    implementation's float matrix `1 - grade` is this matrix divided by D, and every decision of the solver
-   (comparisons, tests against zero) is invariant under scaling by D > 0 as long as D stays below sys.maxsize;
+   (comparisons, tests against zero) is invariant under scaling by D > 0;
    the correspondence validates that on the implementation's own runs.
    ------------------------------------------------------------------------------------------------ *)
 Definition common_den (m : list (list Q)) : Z :=
